@@ -44,7 +44,7 @@ ASSUMPTIONS = [
     "by_min intervals: replicates divided by the smallest reported group value or by the smallest group value of the same resample are both accepted",
     "by_min with a NaN group value is left open; row order is not asserted, only the label set and the value per label",
 ]
-PROBES = ["interrupt_fired", "sampler_raise_fired", "multi_column", "underscore_in_values", "bootstrap_on", "by_overall", "by_min", "identity_sampler", "recording_builtin",
+PROBES = ["wide_result", "interrupt_fired", "sampler_raise_fired", "multi_column", "underscore_in_values", "bootstrap_on", "by_overall", "by_min", "identity_sampler", "recording_builtin",
           "builtin_string", "group_absent_in_resample", "nan_entry", "divisor_zero", "ci_checked", "single_group", "scalar_threshold",
           "non_default_pos_label", "bca", "bc", "quantile"]
 
@@ -67,6 +67,15 @@ def generate(rnd, tier):
         pool = [v for v in ALPHABET if "_" not in v] if plain else ALPHABET
         vals.append(rnd.sample(pool, rnd.randint(1, min(6, len(pool)))))
     n_rows = rnd.randint(1, 60) if rnd.random() < 0.8 else rnd.randint(1, 8)
+    wide = rnd.random() < 0.03
+    if wide:
+        # many groups x many thresholds (results of several thousand entries) and repeated calls on one frame:
+        # size-dependent code paths and buffers that survive from one call to the next
+        n_cols = rnd.choice([2, 3])
+        as_list = True
+        cols = [f"g{k}" for k in range(n_cols)]
+        vals = [rnd.sample([v for v in ALPHABET if "_" not in v] if plain else ALPHABET, rnd.randint(5, 8)) for _ in range(n_cols)]
+        n_rows = rnd.randint(150, 320)
     lab_kind = rnd.choice(["01", "01", "str", "multi"])
     if lab_kind == "01":
         labs, pos_label = [0, 1], 1
@@ -83,16 +92,19 @@ def generate(rnd, tier):
              "pos_label": pos_label, "int_scores": style == "int" and rnd.random() < 0.5}
     ops = []
     fault_free = rnd.random() < 0.34
-    for _ in range(rnd.randint(1, 3)):
-        if rnd.random() < 0.1:
+    wide_thr = sorted({round(rnd.uniform(-3, 3), 3) for _ in range(rnd.randint(60, 140))}) if wide else None
+    for _ in range(rnd.randint(2, 3) if wide else rnd.randint(1, 3)):
+        if rnd.random() < 0.1 and not wide:
             ops.append({"op": "reseed", "seed": rnd.randrange(2**31)})
             continue
         tkind = rnd.choice(["scalar", "list", "list", "array"])
-        if tkind == "scalar":
+        if wide:
+            tkind, thr = "array", wide_thr
+        elif tkind == "scalar":
             thr = round(rnd.uniform(-3, 3), 1)
         else:
             thr = sorted({rnd.choice([round(rnd.uniform(-3, 3), 1), float(rnd.randint(-3, 3))]) for _ in range(rnd.randint(1, 4))})
-        boot = rnd.random() < 0.6
+        boot = rnd.random() < (0.85 if wide else 0.6)
         op = {"op": "showbias", "metric": rnd.choice(METRICS) if rnd.random() < 0.7 else rnd.choice(["fnr", "fpr", "tpr", "ppv"]),
               "threshold": thr, "tkind": tkind, "normalize": rnd.choice([None, None, "by_overall", "by_min"]),
               "score_class": rnd.choice(["pos", "neg"]), "equal_class": rnd.choice(["pos", "neg"]),
@@ -106,7 +118,7 @@ def generate(rnd, tier):
                          "stratified_sampling": rnd.choice([None, None, "by_label", "by_group"])}
                 sampler = {"callable": "recording", "inner": inner} if rnd.random() < 0.8 else inner
             op["sampler"] = sampler
-            op["cfg"] = {"nb_samples": rnd.randint(2, 60), "bootstrap_method": rnd.choice(["quantile", "bc", "bca", "bca"])}
+            op["cfg"] = {"nb_samples": rnd.randint(2, 3) if wide else rnd.randint(2, 60), "bootstrap_method": rnd.choice(["quantile", "bc", "bca", "bca"])}
             if rnd.random() < 0.1:
                 op["default_config"] = True  # the library's own default (bca, dynamic, 1000 samples) is too slow: keep method only
             if not fault_free and rnd.random() < 0.12:
@@ -281,6 +293,8 @@ def execute(scn, ctx):
         tags = {"normalize": norm, "bootstrap_ci": boot, "multi": multi}
         if len(distinct) == 1:
             probe("single_group")
+        if len(distinct) * len(tlist) >= 4096:
+            probe("wide_result")
         if tk == "scalar":
             probe("scalar_threshold")
         if norm:
